@@ -31,7 +31,7 @@ def info(tier):
         "quantity is compared with the reference at n+1 affinely independent points + 1 random point; a model is "
         "non-trivial if it has >= 2 variables and >= 1 constraint row; distinct = canonical recipe hashes",
         "required_cells": [f"layout:{l}" for l in L.LAYOUTS] + ["sense:<=", "sense:>=", "sense:==", "objective", "bounds", "columns",
-                                                                 "extract_linear_coefficient", "extract_constant_term"],
+                                                                 "extract_linear_coefficient", "extract_constant_term", "history:staged-or-batched-constraints"],
         "assumptions": [
             "harness self-check: the written recipe equals the drawn data in exact rational arithmetic, otherwise the run is inconclusive",
             "only models that optyx itself treats as linear are judged (completeness of LP detection is not claimed)",
@@ -61,12 +61,25 @@ def run_model(lp, rec, rng):
     def bad(what, **kw):
         rec.violation(what, {"lp": lp, "show": show, **kw})
 
+    def touch(Q):
+        # the half-written model is inspected: whatever this caches must not survive the constraints added afterwards
+        try:
+            Q.variables
+            Q.n_variables
+            if Q._is_linear_problem():
+                AN.LinearProgramExtractor().extract(Q)
+            rec.events["staged-inspections"] += 1
+        except Exception:
+            rec.events["staged-inspection-raised"] += 1
+
     try:
         b = B.Builder(lp["decls"])
-        P = b.problem(lp)
+        P = b.problem(lp, touch=touch)
     except Exception as ex:
         rec.events["unsupported-build:" + type(ex).__name__] += 1
         return
+    if lp.get("staged") is not None or lp.get("batch"):
+        rec.cmp(1, "history:staged-or-batched-constraints")
     try:
         is_lp = P._is_linear_problem()
     except Exception as ex:
@@ -205,6 +218,11 @@ def run(ctx, rec):
         layout = L.LAYOUTS[n % len(L.LAYOUTS)]
         n += 1
         lp = L.draw_lp(rng, layout=layout, kind=rng.choice(["any", "any", "optimal", "infeasible"]), risky=(n % 4 != 0))
+        if lp["constraints"] and n % 3 == 0:
+            # written in stages: the model is inspected after the first k constraints, the rest (element-wise relations arrive as
+            # lists) is added afterwards; or everything is handed over as one list
+            lp["staged"] = {"after": rng.randrange(len(lp["constraints"]))}
+            lp["batch"] = n % 9 == 0
         run_model(lp, rec, rng)
 
 
